@@ -29,6 +29,8 @@ ASSUMPTIONS = ["numpy .view() between same-width dtypes preserves bit patterns"]
 
 
 def _mode(p):
+    if p.get("zeros"):
+        return "zeros"
     return "near" if p.get("near") else False
 
 
@@ -46,6 +48,9 @@ def cases(rng, tier):
             out.append({"a": a, "dtype": dt, "near": True})
     for _ in range(300 if tier == "quick" else 3000):
         out.append({"a": rlgen.array_random(rng, 60), "dtype": rng.choice(gens.DTYPES), "near": rng.random() < 0.3})
+    # +0.0 next to -0.0: equal values (one run), different bit patterns
+    for a in rlgen.arrays_exhaustive(4):
+        out.append({"a": a, "dtype": rng.choice(["float32", "float64"]), "zeros": True})
     # canonical form of DERIVED run-length arrays (stepped slices, ufuncs of two run-length operands, concatenation);
     # what they decode to is C15 / C16, here only "no empty run" and (where promised) "no equal neighbours" are judged
     for a in rlgen.arrays_exhaustive(4 if tier == "quick" else 5, min_len=2):
@@ -54,6 +59,8 @@ def cases(rng, tier):
             out.append({"a": a, "dtype": "int64", "derived": {"t": "slice", "s": [None, None, k]}})
         out.append({"a": a, "dtype": "int64", "derived": {"t": "binop", "b": [rng.randrange(3) for _ in a], "f": rng.choice(["add", "maximum", "multiply", "equal"])}})
         out.append({"a": a, "dtype": "int64", "derived": {"t": "concat", "b": [a[-1]] + [rng.randrange(3) for _ in range(rng.randint(0, 3))]}})
+        # a ufunc of two operands DERIVED FROM THE SAME array (they share their run boundaries): (x > 0) & (x < 2), x - x, ...
+        out.append({"a": a, "dtype": "int64", "derived": {"t": "same", "f": rng.choice(["and_cmp", "sub_self", "mul_shift", "max_neg"])}})
     for _ in range(300 if tier == "quick" else 3000):
         a = rlgen.array_random(rng, 40)
         n = len(a)
@@ -73,7 +80,7 @@ def cases(rng, tier):
 
 
 def key(p):
-    return (tuple(p["a"]), p["dtype"], bool(p.get("near")), engine.stable_hash(p.get("derived")))
+    return (tuple(p["a"]), p["dtype"], bool(p.get("near")), bool(p.get("zeros")), engine.stable_hash(p.get("derived")))
 
 
 def nontrivial(p):
@@ -94,12 +101,25 @@ def _dmode(p):
     return "inf" if p["dtype"] in ("float32", "float64") else "small"
 
 
+def _same_source(f, x):
+    """a binary ufunc of two arrays derived from the same array x (works on a RunLengthArray and on an ndarray alike)"""
+    if f == "and_cmp":
+        return (x > 0) & (x < 2)
+    if f == "sub_self":
+        return x - x
+    if f == "mul_shift":
+        return (x + 1) * (x // 2)
+    return np.maximum(-x, x - 2)
+
+
 def _derived(p, arr):
     """(numpy result on the dense array, is the joined form promised?)"""
     d = p["derived"]
     if d["t"] == "slice":
         sl = slice(*d["s"])
         return arr[sl], d["s"][2] not in (None, 1)
+    if d["t"] == "same":
+        return _same_source(d["f"], arr), True
     other = rlgen.to_values(d["b"], p["dtype"], _dmode(p))
     if d["t"] == "binop":
         with np.errstate(all="ignore"):
@@ -115,6 +135,9 @@ def _run_derived(p):
         r = RunLengthArray.from_array(arr)
         if d["t"] == "slice":
             res = r[slice(*d["s"])]
+        elif d["t"] == "same":
+            with np.errstate(all="ignore"):
+                res = _same_source(d["f"], r)
         else:
             other = RunLengthArray.from_array(rlgen.to_values(d["b"], p["dtype"], _dmode(p)))
             with np.errstate(all="ignore"):
@@ -135,15 +158,17 @@ def run_impl(p):
         before = arr.copy()
         r = RunLengthArray.from_array(arr)
         o = {"k": "obs"}
-        o["to_array"] = guarded(lambda: r.to_array())
-        o["asarray"] = guarded(lambda: np.asarray(r))
+        # the property asks for element-wise EQUALITY: for the signed-zero cases +0.0 and -0.0 are not told apart
+        z = (lambda x: np.where(x == 0, np.zeros(1, dtype=x.dtype)[0], x)) if p.get("zeros") else (lambda x: x)
+        o["to_array"] = guarded(lambda: z(r.to_array()))
+        o["asarray"] = guarded(lambda: z(np.asarray(r)))
         o["len"] = guarded(lambda: int(len(r)))
         o["size"] = guarded(lambda: int(r.size))
         o["shape"] = guarded(lambda: [int(x) for x in r.shape])
         o["dtype"] = guarded(lambda: str(r.dtype))
         o["starts"] = guarded(lambda: [int(x) for x in r.starts])
         o["ends"] = guarded(lambda: [int(x) for x in r.ends])
-        o["values"] = guarded(lambda: np.asarray(r.values))
+        o["values"] = guarded(lambda: z(np.asarray(r.values)))
         o["canonical"] = guarded(lambda: rlgen.canonical_info(r, joined=True))
         o["input_unmodified"] = canon(bool(np.array_equal(arr.view(np.uint8), before.view(np.uint8))))
         def independent():
@@ -177,6 +202,8 @@ def oracle(p):
         ne = arr[1:] != arr[:-1]
     bounds = [0] + [i + 1 for i in range(n - 1) if ne[i]] + [n]
     o = {"k": "obs"}
+    if p.get("zeros"):
+        arr = np.where(arr == 0, np.zeros(1, dtype=arr.dtype)[0], arr)
     o["to_array"] = canon(arr); o["asarray"] = canon(arr)
     o["len"] = canon(n); o["size"] = canon(n); o["shape"] = canon([n])
     o["dtype"] = {"k": "other", "v": repr(str(arr.dtype))}
@@ -199,6 +226,8 @@ def _nan_class(p):
 
 
 def lean_request(p):
+    if p.get("zeros"):
+        return None         # +0.0 / -0.0 are equal but not identical: outside the hypothesis of C14_decode_encode (its counterexample)
     if "derived" in p:
         return None         # the theorems about derived arrays are C15_slice / C16_binary_canonical / C16_concat
     return {"op": "RL.encode", "a": rlgen.lean_classes(p["a"], p["dtype"], _mode(p)), "nan": _nan_class(p)}
